@@ -285,14 +285,16 @@ def aged_vs_fresh(c, t, rng):
                 b"GET /no/such/thing HTTP/1.1\r\nHost: x\r\n\r\n", b"GET /NO/SUCH/THING.HTML HTTP/1.1\r\nHost: x\r\n\r\n"]
         history = [raw for _, _, raw in mix] + extra + junk * 3
         rng.shuffle(history)
-        aged = server.Server(t.root, threads=w)
+        aged = server.Server(t.root, threads=w, virtual_time=True)
         fresh = server.Server(t.root, threads=w)
         try:
             if not aged.started or not fresh.started:
                 c.inconc("server did not start")
                 continue
-            for raw in history:
+            for hi, raw in enumerate(history):
                 aged.request(raw, timeout=20)
+                if hi % 40 == 39:
+                    aged.advance_clock((61, 3700, 90000)[(hi // 40) % 3])   # ... and time passes meanwhile (no-op without the clock shim)
             if not aged.alive():
                 c.inconc("the aged server exited during its history (C04/C06's business)")
                 continue
